@@ -133,12 +133,15 @@ def gen_scenario(tape):
     if sc.acc in ("store", "store-items", "count", "probe") and not any(st[0] == "callnone" for st in sc.pre) \
             and tape.chance(1, 6, "callable-returns-generator"):
         sc.pre.append(("callgen",))
+    # a builtin (a callable that inspect.signature cannot describe) as the first element
+    if not sc.with_context and not sc.vector and tape.chance(1, 6, "builtin-callable"):
+        sc.pre.insert(0, ("builtin",))
     sc.post = []
     for _ in range(tape.weighted([(3, 0), (3, 1), (1, 2)], "npost")):
         # per-value post elements, and run elements whose output depends on the whole flow of
         # results (a Slice, Reverse, a second accumulator used as a run element)
-        sc.post.append(tape.choice(["call", "variable", "updatecontext", "slice1", "reverse", "store-run"],
-                                   "post"))
+        sc.post.append(tape.choice(["call", "variable", "updatecontext", "slice1", "reverse", "store-run",
+                                    "fillrequest-run"], "post"))
     sc.n = tape.draw(11, "flowlen")
     sc.values = [tape.draw(9, "value") - 2 for _ in range(sc.n)]
     sc.floaty = tape.chance(1, 3, "floats")
@@ -308,6 +311,8 @@ def make_chain(sc, fills):
                 "v%d" % j, lambda d, f=f: tuple(f(x) for x in d) if isinstance(d, tuple) else f(d), **extra))
         elif st[0] == "callnone":
             els.append(lambda v, p=PREDS[st[1]]: None if p(v) else v)
+        elif st[0] == "builtin":
+            els.append(int)
         elif st[0] == "callgen":
             els.append(lambda v: (x for x in (v, v)))
         elif st[0] == "callraise":
@@ -342,6 +347,10 @@ def make_chain(sc, fills):
             els.append(lena.flow.Reverse())
         elif p == "store-run":
             els.append(lena.flow.StoreFilled())
+        elif p == "fillrequest-run":
+            # an adapter that offers fill and request as well as run, used after the accumulator
+            els.append(lena.core.FillRequest(lena.flow.StoreFilled(), bufsize=1000, reset=True,
+                                             yield_on_remainder=True))
         else:
             els.append(lena.context.UpdateContext("post.u%d" % j, j + 1))
     return els
@@ -581,7 +590,8 @@ def culprit(sc, base, r, what):
                         "callnone": "callable-returning-None",
                         "callgen": "callable-returning-a-generator",
                         "callraise": "callable-raising-a-Lena-exception",
-                        "callcount": "stateful-callable"}[sc.pre[j - 1][0]]
+                        "callcount": "stateful-callable",
+                        "builtin": "builtin-callable"}.get(sc.pre[j - 1][0], sc.pre[j - 1][0])
     if what == "out" and sc.post:
         return "post-" + sc.acc
     return "acc-" + sc.acc
